@@ -6,8 +6,9 @@ Every Go operation that can panic (index `b[i]`, slice `b[i:j]`, `b[i:]`) is an 
 (`at?`, `slice?`, `from?`) that yields `Res.panic` when out of range; the guards of the Go code
 (`len(p.data) < 14` …) are transcribed as they are.  The model describes the code after the
 `fix:` commits F7 (802.1Q tag needs 18 octets), F8 (IPv4 `Flags`/`FragOff` from the right bits),
-F15 (`Vlan` is the 12-bit VLAN identifier) and F17 (the IPv4 header length is the IHL field's, so the
-transport layer is read after the IPv4 options).
+F15 (`Vlan` is the 12-bit VLAN identifier), F17 (the IPv4 header length is the IHL field's, so the
+transport layer is read after the IPv4 options) and F19c (TCP `Reserved` is the three bits between the data
+offset and the NS flag).
 
 Core Lean only.
 -/
@@ -209,7 +210,8 @@ def decodeICMP (b : Bytes) : Res L4 :=
     let rest ← from? b 4
     pure (.icmp t c rest)
 
-/-- `decodeTCP` -/
+/-- `decodeTCP` (after the F19c repair: `Reserved: int(b[12]>>1) & 0x7`; octet 12 is
+data offset (4) | reserved (3) | NS (1), and `Flags` is NS followed by the eight bits of octet 13) -/
 def decodeTCP (b : Bytes) : Res L4 :=
   if b.length < 20 then .err .tcpShort else do
     let b0 ← at? b 0
@@ -218,7 +220,7 @@ def decodeTCP (b : Bytes) : Res L4 :=
     let b3 ← at? b 3
     let b12 ← at? b 12
     let b13 ← at? b 13
-    pure (.tcp (b0 * 256 + b1) (b2 * 256 + b3) (b12 / 16) 0 ((b12 * 256 + b13) % 512))
+    pure (.tcp (b0 * 256 + b1) (b2 * 256 + b3) (b12 / 16) (b12 / 2 % 8) ((b12 * 256 + b13) % 512))
 
 /-- `decodeUDP` -/
 def decodeUDP (b : Bytes) : Res L4 :=
@@ -264,7 +266,8 @@ def dissectEth (hdr : Bytes) : Res Pkt := do
   else if r.1.etherType = 0x86DD then dissectV6 r.1 r.2
   else .err .etherType
 
-/-- `Packet.Decoder(data, protocol)`; an error discards the packet (`decodeSampledHeader` returns nil) -/
+/-- `Packet.Decoder(data, protocol)`; on an error `decodeSampledHeader` returns no packet (and, since the
+F19a repair, no error: the raw-header record is left out of the sample) -/
 def dissect (hdr : Bytes) (proto : Nat) : Res Pkt :=
   if proto = 1 then dissectEth hdr
   else if proto = 11 then dissectV4 {} hdr
